@@ -114,6 +114,14 @@ impl Dir {
                         )
                         .collect::<std::io::Result<Vec<_>>>()?;
 
+                    if path_Segments.iter().any(|s| s.starts_with(':')) {
+                        /* `:name` means a path param in routes */
+                        return Err(std::io::Error::new(
+                            std::io::ErrorKind::InvalidInput,
+                            format!("Can't serve `{}`: a name starting with ':'", entry.display())
+                        ))
+                    }
+
                     if path_Segments.last().unwrap().starts_with('.') {
                         crate::warning!("\
                             =========\n\
